@@ -191,6 +191,102 @@ def place_path(e):
     return None
 
 
+def path_to(root, target):
+    """[(node, role)] from `root` down to `target` (by identity); role = key under which the node hangs off its
+    parent ('then', 'else', 'cond', 'arms', 'body', ...).  None if target is not inside root."""
+    path = []
+
+    def rec(n, role):
+        if n is target:
+            path.append((n, role))
+            return True
+        if isinstance(n, dict):
+            for k, v in n.items():
+                if isinstance(v, (dict, list)) and rec(v, k if isinstance(n, dict) else role):
+                    path.append((n, role))
+                    return True
+        elif isinstance(n, list):
+            for v in n:
+                if isinstance(v, (dict, list)) and rec(v, role):
+                    return True
+        return False
+
+    if not rec(root, None):
+        return None
+    path.reverse()
+    return path
+
+
+def conditional_ancestors(root, target, below=None):
+    """Nodes between `below` (default: root) and `target` under which target executes only conditionally:
+    If arms, arms/guards of a real `match`, closure bodies, the right operand of &&/||, let-else.
+    `for`/`while` desugarings are NOT counted (a zero-trip loop is 'for every element')."""
+    p = path_to(root, target)
+    if p is None:
+        return None
+    out = []
+    started = below is None
+    for i, (n, role) in enumerate(p):
+        if not started:
+            if n is below:
+                started = True
+            continue
+        if not isinstance(n, dict) or i + 1 >= len(p):
+            continue
+        child_role = p[i + 1][1]
+        k = n.get("k")
+        if k == "If" and child_role in ("then", "else"):
+            # `while` desugars to loop { if cond {body} else {break} }: the then-arm is the loop body
+            if not (i > 0 and isinstance(p[i - 1][0], dict) and False):
+                out.append(n)
+        elif k == "Match" and child_role == "arms" and n.get("src") not in ("ForLoopDesugar", "TryDesugar", "AwaitDesugar"):
+            out.append(n)
+        elif k == "Match" and child_role == "arms" and n.get("src") == "TryDesugar":
+            pass  # `?`: the continuation arm is the normal path
+        elif k == "Closure" and child_role == "body":
+            out.append(n)
+        elif k == "Binary" and n.get("op") in ("&&", "||") and child_role == "b":
+            out.append(n)
+        elif k == "Let" and child_role == "els":
+            out.append(n)
+    return out
+
+
+def lca(root, a, b):
+    pa, pb = path_to(root, a), path_to(root, b)
+    if pa is None or pb is None:
+        return None
+    last = None
+    for (x, _), (y, _) in zip(pa, pb):
+        if x is y:
+            if isinstance(x, dict):
+                last = x
+        else:
+            break
+    return last
+
+
+def sp_before(a, b):
+    return (a["sp"][0], a["sp"][1]) < (b["sp"][0], b["sp"][1])
+
+
+def uncond_before(root, a, b):
+    """`a` is evaluated earlier than `b` on every path that evaluates `b` (structural dominance on the HIR tree):
+    a precedes b in source order, and below their lowest common ancestor `a` hangs under no conditional construct.
+    Returns (ok, reason)."""
+    l = lca(root, a, b)
+    if l is None:
+        return False, "not in the same body"
+    if not sp_before(a, b):
+        return False, "comes after"
+    conds = conditional_ancestors(root, a, below=l)
+    if conds:
+        c = conds[0]
+        what = c.get("k")
+        return False, "only under a conditional (%s at line %s)" % (what, c.get("sp", ["?"])[0])
+    return True, ""
+
+
 def pat_variants(p):
     """Set of (adt, variant) a pattern matches at its top level (through Or/Ref/Deref/Box/Binding@),
     plus flag whether it contains a catch-all at that level."""
